@@ -10,7 +10,7 @@ import shutil
 from vlib import core
 
 THEOREMS = ["C08_union", "C08_order", "C08_conflict", "C08_spec", "C08_gki_events", "C08_fields", "C08_chain_count_key",
-            "C08_chain_rename_then_plain"]
+            "C08_chain_rename_then_plain", "C08_range_closure_keys_union", "C08_closure_owns_count"]
 PROPS = "theories/Props/C08.v"
 REGISTRY = {
     "level": "proof",
@@ -63,6 +63,8 @@ def pieces_json(ps):
             s.append(p[1])
         elif p[0] == "fk":
             s.append("$t(%s)" % p[1])
+        elif p[0] == "fkc":
+            s.append("$t(%s, {\"count\": \"{{ %s }}\"})" % (p[1], p[2]))
         elif p[0] == "var":
             s.append("{{ %s%s }}" % (p[1], ", " + p[2] if p[2] else ""))
         else:
@@ -178,6 +180,122 @@ def gen_hop(rng, target, is_default, allow_count):
     return ("ref", target, args, wrap)
 
 
+def probe_compiles(ctx, locales, keys, sigs, tag, with_view):
+    """cargo check of a positive probe crate restricted to `keys`; returns (ok, first messages)"""
+    from checks import isolate
+    d = os.path.join(isolate.probe_dir(ctx, tag), "bisect")
+    write_project(d, locales, keys, name=isolate.probe_name(ctx, tag + "_bisect"))
+    os.makedirs(os.path.join(d, "src"), exist_ok=True)
+    with open(os.path.join(d, "Cargo.toml"), "a") as fh:
+        fh.write('\n[workspace]\n\n[dependencies]\nleptos = { version = "0.7.7", features = ["ssr"] }\n'
+                 'leptos_i18n = { path = "/repo/leptos_i18n", features = ["ssr", "interpolate_display", "json_files", '
+                 '"cookie", "plurals", "format_nums"] }\n')
+    shutil.copy(os.path.join(core.HARNESS, "Cargo.lock"), os.path.join(d, "Cargo.lock"))
+    lines = ["#![allow(dead_code, unused, deprecated)]", "leptos_i18n::load_locales!();", "use i18n::*;",
+             "use leptos_i18n::td_string;", "use leptos::prelude::*;", "fn main() {}"]
+    for name in sorted(keys):
+        sig = sigs[name] if "lit" not in sigs[name] else {"vars": [], "comps": []}
+        lines.append("fn p_%s() -> String { td_string!(Locale::en, %s%s).to_string() }" % (name, name, arg_tokens(sig)))
+        if with_view:
+            lines.append("fn v_%s() -> impl leptos::IntoView { leptos_i18n::td!(Locale::en, %s%s) }" % (name, name, arg_tokens_view(sig)))
+    with open(os.path.join(d, "src", "main.rs"), "w") as fh:
+        fh.write("\n".join(lines) + "\n")
+    rc, out, err = core.sh(["cargo", "check", "--offline", "--message-format=json"], cwd=d, timeout=1500,
+                           env={"CARGO_TARGET_DIR": os.path.join(core.CACHE, "target_probe"), "RUSTFLAGS": "--cap-lints warn"})
+    msgs = []
+    for l in out.splitlines():
+        try:
+            m = json.loads(l)
+        except ValueError:
+            continue
+        if m.get("reason") == "compiler-message" and m["message"].get("level") == "error":
+            msgs.append(((m["message"].get("code") or {}).get("code"), m["message"].get("message")))
+    return rc == 0, msgs[:4]
+
+
+def bisect_probe(ctx, locales, keys, sigs, tag, with_view, first_errors):
+    units = key_units(keys)
+    culprit = units
+    while len(culprit) > 1:
+        half = culprit[:len(culprit) // 2]
+        sub = {k: keys[k] for u in half for k in u}
+        ok, _ = probe_compiles(ctx, locales, sub, sigs, tag, with_view)
+        if not ok:
+            culprit = half
+            continue
+        rest = culprit[len(culprit) // 2:]
+        sub = {k: keys[k] for u in rest for k in u}
+        ok, _ = probe_compiles(ctx, locales, sub, sigs, tag, with_view)
+        if ok:
+            break                       # only fails in combination: report the whole remaining set
+        culprit = rest
+    names = sorted(k for u in culprit for k in u)
+    # inside the group: drop every key nothing else refers to, as long as the rest still fails
+    for k in list(names):
+        rest = [x for x in names if x != k]
+        if not rest or any(k in key_refs(v) for x in rest for v in keys[x].values()):
+            continue
+        ok, _ = probe_compiles(ctx, locales, {x: keys[x] for x in rest}, sigs, tag, with_view)
+        if not ok:
+            names = rest
+    ok, msgs = probe_compiles(ctx, locales, {k: keys[k] for k in names}, sigs, tag, with_view)
+    return {"keys_that_do_not_compile": names, "rustc": msgs or first_errors,
+            "values": {k: {l: keys[k][l] for l in locales} for k in names},
+            "required_arguments": {k: sigs[k] for k in names},
+            "what": "the module generated by load_locales!() does not compile although every call supplies exactly the required "
+                    "arguments (key group found by re-generating the crate with half of the key groups)"}
+
+
+def gen_closure_project(rng):
+    """keys for the clause "supplying exactly the required set compiles": a range table (integer and float types) or a plural
+    is embedded through `$t(..)` (count renamed or not) in a value that uses the same variables / components before or after
+    the reference; the branches that use them come before or after literal-only branches"""
+    locales = ["en", "fr", "ja"]
+    V = [[("var", "who", None), ("text", "has nothing")],
+         [("comp", "b", [("var", "who", None)])],
+         [("comp", "b", [("text", "bold")]), ("var", "who", None)],
+         [("text", "for"), ("var", "who", None), ("text", "and"), ("var", "whom", None)]]
+    L = [("text", "plenty")]
+    C = [("var", "count", None), ("text", "items")]
+    keys = {}
+    nst = 6
+    for i in range(nst):
+        kind = ["ranges", "ranges", "ranges", "plural", "ranges", "plural"][i]
+        ty = [None, "u8", "f32", None, rng.choice(["u64", "i64", "i16"]), None][i]
+        st = "st%d" % i
+        keys[st] = {}
+        for l in locales:
+            if l != "en" and rng.random() < 0.25:
+                keys[st][l] = ("str", [("text", "none"), ("var", "who", None)] if rng.random() < 0.5 else [("text", "none")])
+                continue
+            v1, v2 = rng.choice(V), rng.choice(V)
+            order = rng.choice([[v1, L], [L, v1], [v1, v2, L], [v1, L, v2], [L, v1, L], [C, v1, L], [v1, C], [L, L, v1], [v1, L, L]])
+            if kind == "ranges":
+                keys[st][l] = ("ranges", ty, [list(b) for b in order])
+            else:
+                forms = {}
+                for f, b in zip(["one", "two"], order[:-1]):
+                    forms[f] = list(b)
+                forms["other"] = list(order[-1])
+                keys[st][l] = ("plural", "cardinal", forms)
+        for j in range(rng.choice([2, 3])):
+            vals = {}
+            for l in locales:
+                who, b_again = ("var", "who", None), ("comp", "b", [("text", "again"), ("var", "who", None)])
+                t = rng.choice([
+                    [("fk", st), ("text", "(asked by"), who, ("text", ")")],
+                    [who, ("text", ":"), ("fk", st)],
+                    [("comp", "b", [("fk", st)]), b_again],
+                    [("fkc", st, "n"), ("text", "and"), who],
+                    [who, ("fkc", st, "n"), b_again],
+                    [("fk", st), ("var", "whom", None), who],
+                    [("text", "nothing to say")],
+                ])
+                vals[l] = ("str", t)
+            keys["o%d_%d" % (i, j)] = vals
+    return locales, keys
+
+
 ARG_COMPS = ["z1", "z2"]       # names that occur nowhere else: an argument is their only source
 ARG_VARS = ["w1", "w2"]
 
@@ -278,9 +396,9 @@ def pv_pieces(ps, intern, rename=None, locale_vals=None):
             items.append("(PLit LString)")
         elif p[0] == "lit":
             items.append("(PLit %s)" % LIT[p[1]])      # a number / bool argument substituted for a variable
-        elif p[0] == "fk":
-            # `$t(target)` inside a longer string (only generated inside plural forms)
-            items.append("(PForeign %s)" % pv_pieces(locale_vals[p[1]][1], intern))
+        elif p[0] in ("fk", "fkc"):
+            # `$t(target)` / `$t(target, {"count": "{{ n }}"})` inside a longer string
+            items.append("(PForeign %s)" % target_pv(locale_vals[p[1]], intern, locale_vals, p[2] if p[0] == "fkc" else None))
         elif p[0] == "var":
             nm = p[1]
             if rename and nm == "count":
@@ -302,6 +420,20 @@ def pv_pieces(ps, intern, rename=None, locale_vals=None):
     return "(PBloc %s)" % core.coq_list(red)
 
 
+def target_pv(tv, intern, locale_vals, rename=None):
+    """value of a referenced key (interpolation, range table or plural), its count renamed to `rename` if given"""
+    ck = intern("var_" + (rename or "count"))
+    if tv[0] == "ranges":
+        return "(PRanges %d %d %s)" % (range_ty(tv[1]), ck, core.coq_list([pv_pieces(b, intern, rename, locale_vals) for b in tv[2]]))
+    if tv[0] == "plural":
+        forms = [f for f in ["zero", "one", "two", "few", "many"] if f in tv[2]]
+        return "(PPlural %d %s %s)" % (ck, core.coq_list([pv_pieces(tv[2][f], intern, rename, locale_vals) for f in forms]),
+                                       pv_pieces(tv[2]["other"], intern, rename, locale_vals))
+    if tv[0] == "lit":
+        return "(PLit %s)" % LIT[tv[1]]
+    return pv_pieces(tv[1], intern, rename, locale_vals)
+
+
 def range_ty(t):
     return RANGE_TYPES.index((t or "i32").upper())
 
@@ -313,7 +445,7 @@ def pv_value(v, locale_vals, intern):
     if k == "lit":
         return "(PLit %s)" % LIT[v[1]]
     if k == "str":
-        return pv_pieces(v[1], intern)
+        return pv_pieces(v[1], intern, None, locale_vals)
     if k == "fk":
         return "(PForeign %s)" % pv_pieces(locale_vals[v[1]][1], intern)
     if k == "fkargs":
@@ -475,16 +607,73 @@ def arg_tokens(sig, omit=None, extra=None):
     return "".join(", " + a for a in args)
 
 
-def run_probes(ctx, locales, keys, sigs):
+def arg_tokens_view(sig):
+    """the same arguments for the view output (`td!`): counts are closures, components are elements"""
+    args = []
+    for name, fmts, rc in sig["vars"]:
+        n = name[len("var_"):]
+        if rc is not None and rc != "Plural":
+            args.append("%s = move || 1%s" % (n, {"F32": ".0f32", "F64": ".0f64"}.get(rc, rc.lower())))
+        elif rc == "Plural":
+            args.append("%s = move || 1u64" % n)
+        elif any(str(f).startswith("Number") for f in fmts):
+            args.append("%s = move || 1u64" % n)
+        else:
+            args.append('%s = "v"' % n)
+    for c in sig["comps"]:
+        args.append("<%s> = <span />" % c[len("comp_"):])
+    return "".join(", " + a for a in args)
+
+
+def key_refs(v):
+    """keys a value refers to"""
+    out = set()
+
+    def walk(x):
+        if isinstance(x, (list, tuple)):
+            if len(x) >= 2 and x[0] in ("fk", "fkc", "fkargs", "ref") and isinstance(x[1], str):
+                out.add(x[1])
+            if len(x) >= 1 and x[0] == "fkcount":
+                out.add("pl0")
+            for y in x:
+                walk(y)
+        elif isinstance(x, dict):
+            for y in x.values():
+                walk(y)
+    walk(v)
+    return out
+
+
+def key_units(keys):
+    """groups of keys connected by references: a project restricted to a union of units is still well formed"""
+    parent = {k: k for k in keys}
+
+    def find(k):
+        while parent[k] != k:
+            parent[k] = parent[parent[k]]
+            k = parent[k]
+        return k
+    for k, vals in keys.items():
+        for v in vals.values():
+            for r in key_refs(v):
+                if r in parent:
+                    parent[find(k)] = find(r)
+    units = {}
+    for k in keys:
+        units.setdefault(find(k), []).append(k)
+    return list(units.values())
+
+
+def run_probes(ctx, locales, keys, sigs, tag="probe", with_view=False, negative=True):
     """positive crate: every key with exactly its required arguments must type-check; negative crate: every single omission and
     one unknown argument per key, each in its own function, must each be rejected"""
     res = {"positive_calls": 0, "positive_errors": [], "negative_calls": 0, "negative_accepted": []}
     from checks import isolate
-    root = isolate.probe_dir(ctx, "probe")
-    for flavour in ("pos", "neg"):
+    root = isolate.probe_dir(ctx, tag)
+    for flavour in (("pos", "neg") if negative else ("pos",)):
         d = os.path.join(root, flavour)
         # distinct names: both share one target directory (and seed/tier: so do concurrent runs)
-        write_project(d, locales, keys, name=isolate.probe_name(ctx, "probe_" + flavour))
+        write_project(d, locales, keys, name=isolate.probe_name(ctx, tag + "_" + flavour))
         os.makedirs(os.path.join(d, "src"), exist_ok=True)
         with open(os.path.join(d, "Cargo.toml"), "a") as fh:
             fh.write('\n[workspace]\n\n[dependencies]\nleptos = { version = "0.7.7", features = ["ssr"] }\n'
@@ -492,7 +681,7 @@ def run_probes(ctx, locales, keys, sigs):
                      '"cookie", "plurals", "format_nums"] }\n')
         shutil.copy(os.path.join(core.HARNESS, "Cargo.lock"), os.path.join(d, "Cargo.lock"))
         lines = ["#![allow(dead_code, unused, deprecated)]", "leptos_i18n::load_locales!();", "use i18n::*;",
-                 "use leptos_i18n::td_string;", "fn main() {}"]
+                 "use leptos_i18n::td_string;", "use leptos::prelude::*;", "fn main() {}"]
         expect = {}
         for name, sig in sorted(sigs.items()):
             if "lit" in sig:
@@ -500,6 +689,10 @@ def run_probes(ctx, locales, keys, sigs):
             if flavour == "pos":
                 lines.append("fn p_%s() -> String { td_string!(Locale::en, %s%s).to_string() }" % (name, name, arg_tokens(sig)))
                 expect[len(lines)] = (name, "all required arguments")
+                if with_view:
+                    lines.append("fn v_%s() -> impl leptos::IntoView { leptos_i18n::td!(Locale::en, %s%s) }"
+                                 % (name, name, arg_tokens_view(sig)))
+                    expect[len(lines)] = (name, "all required arguments, view output")
             else:
                 for om in [v[0] for v in sig["vars"]] + list(sig["comps"]):
                     lines.append("fn n_%s_%s() -> String { td_string!(Locale::en, %s%s).to_string() }"
@@ -530,7 +723,7 @@ def run_probes(ctx, locales, keys, sigs):
                 # the primary span may lie inside leptos_i18n's macro_rules: follow the expansion chain to the call line
                 e = s
                 while e:
-                    if e.get("file_name", "").endswith("main.rs") and e["line_start"] > 5:
+                    if e.get("file_name", "").endswith("main.rs") and e["line_start"] > 6:
                         err_lines.add(e["line_start"])
                         err_msgs.setdefault(e["line_start"], ((m["message"].get("code") or {}).get("code"),
                                                               m["message"].get("message")))
@@ -543,7 +736,10 @@ def run_probes(ctx, locales, keys, sigs):
             res["positive_errors"] = [{"line": ln, "call": lines[ln - 1], "what": expect[ln], "rustc": err_msgs.get(ln)}
                                       for ln in sorted(err_lines) if ln in expect]
             if rc != 0 and not res["positive_errors"]:
-                res["positive_errors"].append({"cargo_check_failed": (other_errors or [err[-600:]])[:3]})
+                # the generated module itself does not compile (the errors lie inside load_locales!()): find the keys by
+                # re-generating the crate with half of the key groups
+                res["positive_errors"].append(bisect_probe(ctx, locales, keys, sigs, tag, with_view,
+                                                           (other_errors or [err[-600:]])[:3]))
         else:
             res["negative_calls"] = len(expect)
             res["negative_accepted"] = [{"line": ln, "call": lines[ln - 1], "what": w} for ln, w in sorted(expect.items())
@@ -595,6 +791,10 @@ def run(ctx):
                                "ja": ("plural", "cardinal", {"other": [("fk", "t0"), ("var", "count", None)]})}}),
     ]
     projects.extend(corpus)
+    closure_start = len(projects)
+    for i in range(1 if ctx.quick else 3):
+        projects.append(gen_closure_project(rng))
+    closure_end = len(projects)
     for i in range(n):
         projects.append(gen_project(rng, conflict=rng.random() < 0.3))
     root = os.path.join(ctx.work, "proj_%d" % os.getpid())
@@ -613,6 +813,7 @@ def run(ctx):
     intern = Interner()
     outcomes = {"ok": 0, "RangeAndPluralsMix": 0, "RangeTypeMissmatch": 0, "other_err": 0, "PANIC": 0}
     probe_candidate = None
+    closure_candidates = []
     for pi, ((locales, keys), line) in enumerate(zip(projects, lines)):
         obj = json.loads(line)
         pipe = obj.get("pipeline")
@@ -633,7 +834,9 @@ def run(ctx):
                 shape.append({"project": pi, "keys_generated": sorted(keys), "keys_parsed": sorted(impl_by_key),
                               "warnings": obj.get("warnings")})
                 continue
-            if probe_candidate is None and len(locales) >= 3 and len(keys) >= 9:
+            if closure_start <= pi < closure_end:
+                closure_candidates.append((locales, keys, impl_by_key))
+            elif probe_candidate is None and len(locales) >= 3 and len(keys) >= 9:
                 probe_candidate = (locales, keys, impl_by_key)
         else:
             e = pipe["err"]
@@ -677,6 +880,18 @@ def run(ctx):
     probes = None
     if not ctx.quick and probe_candidate is not None:
         probes = run_probes(ctx, *probe_candidate)
+    # every tier: the projects built for "exactly the required set compiles" (string and view outputs)
+    for ci, cand in enumerate(closure_candidates):
+        cp = run_probes(ctx, *cand, tag="closure%d" % ci, with_view=True, negative=(ci == 0 and not ctx.quick))
+        if probes is None:
+            probes = cp
+        else:
+            for k2 in ("positive_calls", "negative_calls"):
+                probes[k2] += cp[k2]
+            probes["positive_errors"] += cp["positive_errors"]
+            probes["negative_accepted"] += cp["negative_accepted"]
+    if closure_end - closure_start != len(closure_candidates):
+        unattributed.append({"closure_project_did_not_load": closure_end - closure_start - len(closure_candidates)})
     if bad_counts:
         bad_counts.sort(key=lambda m: len(json.dumps(m["chain"])))
         core.violation(ctx, "chain_count_key", {
@@ -729,7 +944,7 @@ def run(ctx):
         "unobserved_keys_of_failed_projects": sum(1 for m in meta if m["impl"] is None),
         "disagreements": len(disagree), "spec_failures_on_impl": len(bad_spec), "skipped_outside_domain": skipped,
         "chain_final_values_checked": len(citems), "chain_count_key_failures": len(bad_counts),
-        "shape_problems": shape[:3], "compile_probes": probes if probes is not None else "thorough tier only",
+        "shape_problems": shape[:3], "compile_probes": probes if probes is not None else "none",
         "input_distribution": hist, "audit_problems": problems,
     }, assumptions=[
         "values are modelled after foreign-key substitution and reduce; the generator computes that form itself",
@@ -770,6 +985,24 @@ def replay(ctx, path):
     obj = json.load(open(path))
     fi = obj.get("failing_input") or {}
     print(json.dumps({k: v for k, v in obj.items() if k != "more"}, indent=1)[:6000])
+    if "keys_that_do_not_compile" in fi:                      # compile probe: the generated module does not build
+        exe = os.path.join(core.cargo_build("h_plurals"), "h_plurals")
+        locales = list(next(iter(fi["values"].values())).keys())
+        keys = {k: {l: _value(v) for l, v in vals.items()} for k, vals in fi["values"].items()}
+        d = os.path.join(ctx.work, "replay_%d" % os.getpid())
+        write_project(d, locales, keys)
+        rc, out, err = core.sh([exe, "parse"], input=d + "\n", timeout=120)
+        pipe = json.loads(out.splitlines()[0])["pipeline"]
+        if not isinstance(pipe, dict) or "ok" not in pipe:
+            print("IMPLEMENTATION parse pipeline:", json.dumps(pipe)[:800])
+            return 1
+        sigs = {n: v["value"] for n, v in pipe["ok"]["keys"] if "value" in v}
+        print("required arguments (parse_locales):", json.dumps(sigs))
+        ok_, msgs = probe_compiles(ctx, locales, keys, sigs, "replay", True)
+        print("IMPLEMENTATION cargo check of the crate calling every key with exactly these arguments (td_string! and td!):",
+              "compiles" if ok_ else "does NOT compile: %s" % json.dumps(msgs))
+        print("VERDICT", "holds now" if ok_ else "still violated")
+        return 0 if ok_ else 1
     if "keys" in fi and "locales" in fi:                      # a whole project (pipeline panic)
         exe = os.path.join(core.cargo_build("h_plurals"), "h_plurals")
         keys = {k: {l: _value(v) for l, v in vals.items()} for k, vals in fi["keys"].items()}
